@@ -3,7 +3,7 @@
    Model: Model/Lock.v (the step sequence of StatusFileData.UpdateFullStatus / Load / Save of
    pkg/workceptor/workunitbase.go, N goroutines x M processes as one list of model processes,
    every schedule), tied to the code by `./check C14` (strace projection + stress). *)
-From Receptor Require Import Model.Lock Proofs.Lock.
+From Receptor Require Import Model.Lock Proofs.Lock Model.LockMem Proofs.LockMem.
 Open Scope N_scope.
 
 (* For EVERY schedule: whenever the lock is free, the file, every process' in-memory record and
@@ -148,6 +148,35 @@ Theorem C14_pid_recorded_by_save_refuted :
   apply_all (upd_fns (c_order c)) (0, 0) = (1, 0).
 Proof. exact load_then_save_refuted. Qed.
 Print Assumptions C14_pid_recorded_by_save_refuted.
+
+(* the record the daemon REPORTS: the in-memory copy of the long-lived unit object (Model/LockMem.v,
+   one event per file-lock section, which C14_linearizable justifies).  With statusLock held around
+   the file-lock section (UpdateFullStatus / UpdateBasicStatus / Load of BaseWorkUnit), for every
+   trace of updates and Loads of the object and of writes by others (the runner): no update made
+   through the object is missing from the in-memory record or from the file, and the in-memory
+   record is a record the file held *)
+Theorem C14_object_keeps_updates : forall tr r u,
+  forallb nested tr = true -> In (EUpd u) tr ->
+  let s := mrun tr (minit r) in
+  In u (m_mem s) /\ In u (m_file s) /\ is_prefix (m_mem s) (m_file s).
+Proof. exact nested_keeps_updates. Qed.
+Print Assumptions C14_object_keeps_updates.
+
+(* ... and it IS the stored record whenever the last event went through the object *)
+Theorem C14_object_publishes_the_file : forall tr r,
+  forallb nested tr = true -> last_through_object tr = true ->
+  let s := mrun tr (minit r) in m_mem s = m_file s.
+Proof. exact nested_publishes_the_file. Qed.
+Print Assumptions C14_object_publishes_the_file.
+
+(* a Load that reads the file without statusLock and assigns the copy afterwards (seeded change
+   C14-H): read, an update of the same object runs to its end, publish - the update that returned
+   is in the file and missing from the in-memory record *)
+Theorem C14_split_load_refuted :
+  let s := mrun split_witness (minit []) in
+  m_file s = [1%nat] /\ m_mem s = [] /\ ~ In 1%nat (m_mem s) /\ In (EUpd 1) split_witness.
+Proof. exact split_load_refuted. Qed.
+Print Assumptions C14_split_load_refuted.
 
 (* non-vacuity: with the lock, the schedule of the refutation (completed) loses nothing *)
 Example C14_nonvacuous :
